@@ -400,7 +400,12 @@ EXTRA_TEXT = {
         "RecoveryAdequate (eight named deviations refuted); DBFTChain.tla covers 2-3 heights with the primary rotating by height, the future-height payload cache, late payloads and "
         "block relay (AgreementH, NoSkip, CacheHarmless; four deviations refuted); exhaustive runs N=4 up to 3.1M states; every payload sent by the real services is decoded and "
         "recorded, every RecoveryMessage both as its compact payloads on the wire and as the node's own decoder rebuilds them, judged by DBFTRecTrace against the set of payloads "
-        "really sent; scripted recovery windows and future-height scenarios incl. N=7.",
+        "really sent; scripted recovery windows and future-height scenarios incl. N=7. "
+        "Extension net (spec/consnet, harness/c19net): the consensus service INSIDE the real P2P server - one real network.Server + consensus.Service (wired as cli/server does) "
+        "against fake validators over loopback TCP holding the other validators' keys, and meshes of 3-4 real servers, under virtual dBFT time; ConsNet judges delivery exactly once, "
+        "relay, proposal transactions, block out, agreement, acceptability, service start; ConsNetImpl (five named deviations refuted, about 23M states in the thorough tier); "
+        "schedules from ConsNetSim plus seeded adversaries; 'missing at a quiescent point' confirmed by a slow replay; a missing answer to ONE proposal is informational, judged is "
+        "decision within 3 views with everybody honest.",
  "C20": " Later additions: LedgerOnce.tla (AddBlock as one critical section; deviation CheckOutsideLock refuted) bound by rounds in which 2-5 goroutines "
         "offer decoded copies of the SAME next block (+ a stale one) to the real Blockchain.AddBlock, judged by TLC (StoredExactlyOnce, HeightByOne, "
         "StateAsReference); stripped-body junk blocks in state sync; two scripted worlds reproducing the listed findings of state-synchronised nodes. "
